@@ -12,7 +12,7 @@
 From Coq Require Import ZArith List String.
 Import ListNotations.
 From FGV Require Import Base.Util Base.Bond Base.NX Model.Permute Model.Match Spec.Embedding
-  Spec.PermuteAssign Spec.MatchCheck Proofs.EmbeddingFacts Proofs.PermuteNil Proofs.MatchTheorems.
+  Spec.PermuteAssign Spec.MatchCheck Proofs.EmbeddingFacts Proofs.PermuteNil Proofs.MatchTheorems Proofs.MatchTotal.
 Open Scope Z_scope.
 
 (* Whenever the pattern P embeds into the host G with the pattern anchor pa on the host
@@ -54,6 +54,30 @@ Theorem C03_checker_sound : forall w ic G a P pa o, wfb P = true ->
   c03_anchored_okb w ic G a P pa o = true ->
   (exists f, Embedding w ic G a P pa f) -> exists pairs vis, o = Ok (true, pairs, vis).
 Proof. exact c03_anchored_okb_sound. Qed.
+
+(* Totality: on well-formed graphs whose nodes all carry a symbol the matcher returns [Ok _] -- no
+   KeyError / IndexError value and no out-of-fuel value -- for EVERY mapper (can_map_to_nothing arbitrary) *)
+Theorem C03_total_anchored : forall G P mp, wfb G = true -> wfb P = true -> has_syms G -> has_syms P ->
+  forall a pa, In a (nodes G) -> In pa (nodes P) ->
+  exists b pairs vis, map_anchored_subgraph G P mp a pa = Ok (b, pairs, vis).
+Proof. exact map_anchored_subgraph_total. Qed.
+
+Theorem C03_total_map_subgraph : forall G P mp, wfb G = true -> wfb P = true -> has_syms G -> has_syms P ->
+  forall a spa, In a (nodes G) -> (forall pa, spa = Some pa -> In pa (nodes P)) ->
+  exists rs, map_subgraph G P mp a spa = Ok rs.
+Proof. exact map_subgraph_total. Qed.
+
+(* map_subgraph_to_graph iterates range(len(graph)): host ids 0..n-1 *)
+Theorem C03_total_unanchored : forall G P mp, wfb G = true -> wfb P = true -> has_syms G -> has_syms P ->
+  (forall i, 0 <= i < Z.of_nat (List.length G) -> In i (nodes G)) ->
+  exists b, map_subgraph_to_graph G P mp = Ok b.
+Proof. exact map_subgraph_to_graph_total. Qed.
+
+(* the same with the ids condition in the form "every id lies in 0..n-1" (equivalent on well-formed graphs) *)
+Theorem C03_total_unanchored_contig : forall G P mp, wfb G = true -> wfb P = true -> has_syms G -> has_syms P ->
+  (forall n, In n (nodes G) -> 0 <= n < Z.of_nat (List.length G)) ->
+  exists b, map_subgraph_to_graph G P mp = Ok b.
+Proof. exact map_subgraph_to_graph_total_contig. Qed.
 
 (* modular forms: the same statements from the characterisation of permute alone *)
 Theorem C03_from_spec : forall w ic, permute_spec_holds w ic ->
@@ -105,3 +129,7 @@ Print Assumptions C03_reference_exact.
 Print Assumptions C03_checker_sound.
 Print Assumptions C03_from_spec.
 Print Assumptions C03_permute_spec.
+Print Assumptions C03_total_anchored.
+Print Assumptions C03_total_map_subgraph.
+Print Assumptions C03_total_unanchored.
+Print Assumptions C03_total_unanchored_contig.
